@@ -138,3 +138,16 @@ PROPS["C07"] = dict(
     assumptions=["accepted references: &amp; &lt; &gt; &quot;|&#34;|&#x22; &#39;|&#039;|&#x27;|&apos;",
                  "TLC checks on the model that the reference Escape has no raw special character and decodes back to the input"],
 )
+
+PROPS["C19"] = dict(
+    level="model_checking",
+    stages=[dict(name="enum", module="MC_C19", cfg={"quick": "MC_C19_quick.cfg", "thorough": "MC_C19_thorough.cfg"},
+                 timeout={"quick": 300, "thorough": 1500})],
+    nontrivial=lambda r: True,
+    rule="every string up to MaxStr over {a B SP e-acute LF}, every int / string list up to MaxList (untyped, []int, []string), "
+         "maps (untyped, map[string]int, map[string]string) x the filter chains of the property's equations; slice with every "
+         "start/length in -SliceRange..SliceRange and omitted length on strings and lists; values leave the template through the "
+         "harness' vdump filter. upper/lower/trim/capitalize are checked for idempotence only (two real renders)",
+    assumptions=["TLC checks the equations (Laws) on the reference definitions in TwigSem over the same input space",
+                 "string lists for sort use strings on which every sensible collation agrees; map results are compared order-free"],
+)
